@@ -112,6 +112,9 @@ def instances(tier, seed):
     for h in HISTORY:
         for where in ("ctx", "top"):
             out.append(("core", dict(hist=[h], where=where)))
+    # a passing check that *overwrites* an existing binding (broadcastable variadic), inside a
+    # PyTree check that is rejected afterwards: the overwrite must be undone
+    out.append(("core", dict(hist=[["arr", "*#v", "none"], ["tree", "*#v", None, "node2", "none"]], where="ctx")))
     pairs = [(a, b) for a in HISTORY for b in HISTORY]
     rng.shuffle(pairs)
     n2 = 60 if tier == "quick" else 600
@@ -216,7 +219,7 @@ def scenario(inst, V):
             if kind == "arr":
                 _, dims, site = h
                 pd = D.parse_ref(dims)
-                shape = [V.int(f"{tag}s{i}", 0) for i in range(len(pd) + (1 if "*" in dims else 0))]
+                shape = [V.int(f"{tag}s{i}", 0) for i in range(len(pd))]  # a variadic token gets exactly one axis
                 arm(site, tag)
                 r = guarded(lambda: isinstance(TickArr(shape), jt.Float[TickArr, dims]))
                 if r is True and in_ctx:
@@ -232,8 +235,7 @@ def scenario(inst, V):
                 else:
                     leafT = jt.Float[TickArr, dims]
                     pd = D.parse_ref(dims)
-                    shapes = [[V.int(f"{tag}l{i}_{j}", 0) for j in range(len(pd) + (1 if "*" in dims else 0))]
-                              for i in range(nl)]
+                    shapes = [[V.int(f"{tag}l{i}_{j}", 0) for j in range(len(pd))] for i in range(nl)]
                 tree = build_tree(skel, [TickArr(s) for s in shapes])
                 if kind == "nested":
                     ann = PyTree[PyTree[leafT], struct]
@@ -301,9 +303,9 @@ def scenario(inst, V):
             r = c01.observe_check(TickArr([s, s2]), ann)
             V.check(f"{label}-shape", r == D.REJ, got=str(r))
         # verdict from the bindings that should be in force
-        pr = V.choose("prk", 3)
-        pdims = ["p", "q p", "*v p"][pr]
-        shape = [V.int(f"pr{i}", 0) for i in range(1 if pr == 0 else 2)]
+        pr = V.choose("prk", 5)
+        pdims = ["p", "q p", "*v p", "*v", "*#v"][pr]
+        shape = [V.int(f"pr{i}", 0) for i in range(1 if pr in (0, 3, 4) else 2)]
         got = c01.observe_check(TickArr(shape), jt.Float[TickArr, pdims])
         st = D.step(D.parse_ref(pdims), [core.lift(x) for x in shape], B)
         V.check("probe-ref", D.verdict_allowed(st, got) if got in (0, 1, 2) else False, got=str(got), dims=pdims)
